@@ -21,6 +21,10 @@ def scenarios(rng, quick):
             S.append(("onto-existing/" + comp, base + q(1, pad) + " R:nm:1 " + q(2, pad) + " W D",
                       {"s0_o1" + {"n": "", "g": ".gz", "x": ".xz"}[comp]: "0102030405"}))
             S.append(("nothing-written/" + comp, base + "R:nm:1 R:nm:0 D", {}))
+            # a '.part' file left behind by an earlier run that died: the new output must not build on it
+            sfx = {"n": "", "g": ".gz", "x": ".xz"}[comp]
+            S.append(("stale-part/" + comp, base + q(1, pad) + " R:nm:1 " + q(2, pad) + " W D",
+                      {"s0_o0" + sfx + ".part": "8365432d444e53" * 40, "s0_o1" + sfx + ".part": "00" * 5000}))
             S.append(("rotate-after-flush/" + comp, base + " ".join(q(i, pad) for i in range(1, 4)) + " R:nm:1 " + q(5, pad) + " W R:nm:0 " + q(6, pad) + " D", {}))
     if not quick:
         for i in range(280):
